@@ -17,7 +17,7 @@ from vlib import gen_obj, harness
 ID = "C08"
 LEVEL = "exploration"
 RULE = ("universe = fixed explicit pairs (1/1.0/True, 'a'/b'a', list/tuple, set/frozenset, nested-leaf variants) + seeded "
-        "recursive values (depth <= 4) without aliased sub-objects and without NaN in sets; every value is rebuilt in K "
+        "recursive values (depth <= 5; 6 % wide / long / deep ones: strings and bytes up to 70 000, containers up to 1025 members, ints beyond 64 bits, nesting 20, 1-3 MiB payloads repeated in one value) without aliased sub-objects and without NaN in sets; every value is rebuilt in K "
         "interpreter processes (PYTHONHASHSEED 0,1,2,random,...) x 2 insertion-order permutations each, md5 and sha1; "
         "a case is one value; distinct_nontrivial counts distinct canonical forms of values containing at least one "
         "dict/set/frozenset part or belonging to an explicit near-colliding pair")
